@@ -64,6 +64,9 @@ def build_inputs(n, kind):
     if kind == "cases":
         cases = [[vals(n)[i], (i * 5 + 2) % 9] for i in range(n)]
         return None, ["a", "b"], cases
+    if kind == "cases1":
+        # one argument, its name given as a plain string
+        return None, "alpha", [[v] for v in vals(n)]
     if kind in ("mix", "mix2"):
         shape = factorise(n)
         n2 = shape[-1] if len(shape) > 1 else 1
@@ -77,7 +80,7 @@ def build_inputs(n, kind):
 def cases(tier, seed):
     nmax = 24 if tier == "quick" else 48
     variants = list(itertools.product(
-        ("grid", "cases", "mix", "mix2"), (False, True, 3),
+        ("grid", "cases", "mix", "mix2", "cases1"), (False, True, 3),
         ("none", "const", "farmer", "farmer-override", "const0", "farmer0",
          "farmer-extra", "farmer-shared", "farmer-clash")))
     for n in range(1, nmax + 1):
@@ -192,7 +195,8 @@ def check_case(case):
     vio = []
 
     argnames = sorted(
-        set(fn_args or []) | {a for a, _ in (combos or [])}
+        set([fn_args] if isinstance(fn_args, str) else (fn_args or []))
+        | {a for a, _ in (combos or [])}
     )
     constants, resources = {}, {}
     if const != "none":
@@ -272,7 +276,7 @@ def check_case(case):
         sow_consts = dict(override) if override else None
     else:
         crop = xyz.Crop(fn=f, name="c7", parent_dir=d,
-                        shuffle=(shuffle if kind in ("cases", "mix2")
+                        shuffle=(shuffle if kind in ("cases", "mix2", "cases1")
                                  else False),
                         **ckw)
         sow_consts = dict(constants) if constants else None
@@ -290,7 +294,7 @@ def check_case(case):
             crop.sow_cases(fn_args, list(dcases), constants=sc, verbosity=0,
                            combos=tuple(copy.deepcopy(dcombos).items()),
                            **skw)
-        elif kind == "cases":
+        elif kind in ("cases", "cases1"):
             crop.sow_cases(fn_args, list(dcases), constants=sc, verbosity=0,
                            **skw)
         elif kind == "grid":
@@ -503,11 +507,11 @@ def check_case(case):
                 old_.delete_all()
             keep = crop
             crop = xyz.Crop(fn=f, name="c7", parent_dir=d, shuffle=(
-                shuffle if kind in ("cases", "mix2") else False), **kws)
+                shuffle if kind in ("cases", "mix2", "cases1") else False), **kws)
             skw_keep, skw = skw, {}
             sow()
             crop = xyz.Crop(fn=f, name="c7", parent_dir=d, autoload=False,
-                            shuffle=(shuffle if kind in ("cases", "mix2")
+                            shuffle=(shuffle if kind in ("cases", "mix2", "cases1")
                                      else False), num_batches=B + 1)
             sow()
             c7 = xyz.Crop(name="c7", parent_dir=d)
